@@ -101,7 +101,7 @@ func checkReceiver(p *Prog, r *Report, fn *ssa.Function) {
 		}
 	}
 	isErrc := func(s *Seg, ch ssa.Value) bool {
-		return errc != nil && p.SameOrigin(ch, errc)
+		return errc != nil && p.SameOrigin(s.Resolve(ch), errc)
 	}
 
 	// classify predicates called on the read error
@@ -289,12 +289,7 @@ func checkReceiver(p *Prog, r *Report, fn *ssa.Function) {
 	}
 
 	// exits: errc closed exactly once, by defer
-	nclose := 0
-	for _, d := range Deferred(loopFn) {
-		if b, ok := d.Call.Value.(*ssa.Builtin); ok && b.Name() == "close" {
-			nclose++
-		}
-	}
+	nclose := len(deferredCloses(loopFn)) // `defer close(ch)` or a deferred closure literal that closes it
 	otherClose := 0
 	for _, s := range fp.Segs {
 		for _, e := range s.Events {
